@@ -884,6 +884,13 @@ func runC11x(c C11Case, cs *kit.CaseStats, info *c11Info) error {
 				expect = "sent " + key + " attaching to the victim's tip"
 			}
 		}
+		// another body under an unchanged v2 id, delivered while this liar was the
+		// only peer the victim could ask (it connected first, the honest peers more
+		// than a sync round later): the batch reached full validation, so the
+		// peer must have been reported - whether or not it is still connected
+		if expect == "" && rpc == "blocks" && b.Applied("blocks:same-id-invalid-body") > 0 && len(c.Byz) == 1 && c.Byz[0].DelayMS == 0 && c.HonestDelayMS >= 1200 && c.Slow == nil && quiescent {
+			expect = "delivered a block with another body under its id (" + key + ") while it was the victim's only peer"
+		}
 		if expect != "" && !banned {
 			return fmt.Errorf("Byzantine peer %d (%s) %s, but the peer store never saw a Ban of its address (bans: %v)", i, b.IP, expect, victim.Store.Bans())
 		}
